@@ -13,6 +13,9 @@ R10.3  guarded raw buffer access: every raw read through Buffer.data (dereferenc
 R10.4  may-be-NULL contradiction: values flowing from locations that the code itself stores NULL into or tests
        against NULL (task debugLines when threads > 1; names[] of functions without a name-section entry) are never
        dereferenced or passed to a library string function without a dominating NULL test
+R10.6  array reads of the module-level writers stay in bounds: the header/implementation writers are partially evaluated on a
+       concrete 6-function module for every -f N and several static/dynamic splits with exact-length arrays; any read past the
+       end of a module or function-ID array is reported with its location
 R10.5  name bytes: the hex escape of identifier bytes formats an unsigned byte with at most two digits in both twins
 """
 import math
@@ -752,6 +755,29 @@ class NullFlow:
         return '%r, reached from %s' % (loc, ' / '.join('%s.%s' % (s[1], s[2]) for s in NULLABLE_SEEDS))
 
 
+# ---- R10.6 ----------------------------------------------------------------------------------------
+
+def check_writer_bounds(chk):
+    from .. import render as R, pe
+    from . import c06
+    tus = R.sequential_tus(chk)
+    it = c06.make(tus)
+    mk = lambda: R.sample_module(it)
+    K = 6
+    n = 0
+    for static, dynamic in ((list(range(K)), []), ([0, 2, 4], [1, 3, 5]), ([5], [4, 3, 2, 1, 0]), ([], list(range(K))), ([1, 0], [2])):
+        for fpf in range(0, K + 2):
+            label = 'f=%d,static=%r,dynamic=%r' % (fpf, static, dynamic)
+            n += 1
+            try:
+                R.render(it, mk, fpf, static, dynamic, 0, 0)
+                chk.ok('R10.6', label)
+            except pe.OutOfBounds as e:
+                chk.fail('R10.6', label, 'translating a 6-function module with functions-per-file %d, static IDs %r, dynamic IDs %r (as produced by '
+                         '-r): %s' % (fpf, static, dynamic, e), 'module-writers:out-of-bounds-read')
+    return n
+
+
 def run(chk):
     chk.explanation = (
         'Whole-translator syntactic/dataflow rules over the clang ASTs of every translator source file: worst-case output length of each '
@@ -776,6 +802,7 @@ def run(chk):
         chk.require((kind, rec, field) in just, 'R10.4 anchor: no site stores or tests NULL for %s.%s any more - re-derive the nullable locations' % (rec, field))
     nf.propagate()
     n_null = nf.check()
+    n_wr = check_writer_bounds(chk)
     chk.extra['sites'] = dict(sprintf=n_fmt, copies=n_cp, raw_buffer=n_buf, nullable_sinks=n_null,
                               tainted_locations=sorted(map(str, nf.tainted)), seed_evidence={str(k): v[:3] for k, v in just.items()})
     chk.floor('R10.1', 10)
@@ -783,3 +810,4 @@ def run(chk):
     chk.floor('R10.3', 12)
     chk.floor('R10.4', 6)
     chk.floor('R10.5', 2)
+    chk.floor('R10.6', 30)
